@@ -159,6 +159,12 @@ def gen_c09(seed, index):
     rng, g = _gen(seed, index, prof)
     if g.npk is None and g.lpk in G.WARM_OK and len(g.arms) >= 2 and rng.random() < 0.3:
         ops = cold_first_scenario(rng, g)
+        if rng.random() < 0.6:
+            # the live bandit answers a query between training and the warm start (anything a prediction
+            # caches must be invalidated by the warm start)
+            g.ops = []
+            g.op_query(rng.choice(["pred", "pred", "pexp"]))
+            ops = [ops[0]] + g.ops + [ops[1]]
         g.ops = []
         g.op_query("pexp")
         return {"cfg": g.cfg, "ops": ops, "queries": g.ops}
@@ -368,12 +374,28 @@ def rejected_vs_never_made(scn):
 
 # ------------------------------------------------------------------ C05 n_jobs / backend / partition independence
 
+# metrics whose value for one (stored row, query row) pair depends on *other* rows when they are computed for a
+# batch (scipy derives the variances / the inverse covariance from the stacked inputs), or that are not covered by
+# the exact metrics of the model: used in implementation-vs-implementation relations only
+DATA_METRICS = ["seuclidean", "mahalanobis", "seuclidean", "mahalanobis", "canberra", "braycurtis", "cosine", "correlation",
+                "minkowski"]
+
+
+def data_metric(rng, npc, prob):
+    if npc and npc.get("k") in ("radius", "knn") and rng.random() < prob:
+        npc["metric"] = rng.choice(DATA_METRICS)
+        if npc["k"] == "radius":
+            npc["r"] = rng.choice([0.5, 1.0, 1.5, 2.0, 3.0])
+    return npc
+
+
 def gen_c05(seed, index):
     prof = {"name": "C05", "lp": ALL_LP, "np": [None] + G.NP_KINDS + G.NP_KINDS,
             "weights": {"fit": 1, "pfit": 2, "query": 3, "add": 1, "rem": 0.5, "warm": 0.3},
             "query_sizes": [1, 2, 3, 4, 5, 7, 9], "n_ops": (3, 8)}
     rng, g = _gen(seed, index, prof)
     scn = g.build()
+    data_metric(rng, scn["cfg"].get("np"), 0.3)
     scn["jobs"] = rng.choice([2, 3, 4, -1, 10 ** 6])
     scn["backend"] = rng.choice([None, "threading", "threading", "threading", "threading"])
     if scn["backend"] is None:
@@ -423,18 +445,32 @@ def chunk_vs_rows(scn):
         seeds = np.arange(1000, 1000 + len(rows))
         is_predict = q["op"] == "pred"
         st = T.rng_states(a)
+        whole_err = None
         try:
             whole = T.canon(imp._predict_contexts(rows, is_predict, seeds, 0))
         except Exception as e:  # noqa: BLE001
-            return None if "shape" in str(e) or "dimension" in str(e) else "whole-batch call raised %r" % (e,)
+            if "shape" in str(e) or "dimension" in str(e):
+                return None
+            whole_err = e
         # restore the bandit's own streams (TreeBandit draws from them: known finding K3)
         for p, r in T.collect_rngs(a):
             r.rng.bit_generator.state = st[p]
-        single = []
+        single, single_err = [], None
         for i in range(len(rows)):
-            single.append(T.canon(imp._predict_contexts(rows[i:i + 1], is_predict, seeds[i:i + 1], i))[0])
+            try:
+                single.append(T.canon(imp._predict_contexts(rows[i:i + 1], is_predict, seeds[i:i + 1], i))[0])
+            except Exception as e:  # noqa: BLE001
+                single_err = e
+                break
         for p, r in T.collect_rngs(a):
             r.rng.bit_generator.state = st[p]
+        if whole_err is not None or single_err is not None:
+            # the rows are handled one after the other: the batch is rejected iff some row alone is
+            if (whole_err is None) != (single_err is None):
+                return "whole-batch call %s, row-by-row calls %s" % (
+                    "raised %r" % (whole_err,) if whole_err is not None else "succeeded",
+                    "raised %r" % (single_err,) if single_err is not None else "succeeded")
+            continue
         if not T.same(whole, single, 0.0):
             bad = [i for i, (x, y) in enumerate(zip(whole, single)) if not T.same(x, y, 0.0)]
             return "rows %r: _predict_contexts on the whole batch gives %r, row by row with the same seeds %r" % (
@@ -873,6 +909,35 @@ def gen_c08(seed, index):
     return scn
 
 
+def gen_c08_large(seed, index):
+    """query batches around block-size boundaries (2^k + 1 rows): one result per row must hold for every m"""
+    rng = random.Random("%s/C08-large/%s" % (seed, index))
+    npk = [None, "radius", "knn", "lsh", "clusters", "tree"][index % 6]
+    lpk = rng.choice(["linucb", "lingreedy"]) if npk is None else rng.choice(["greedy", "ucb"])
+    lp = G.gen_lp(rng, lpk)
+    if "eps" in lp:
+        lp["eps"] = 0.0
+    ltype = rng.choice(["int", "str"])
+    pool = list(G.LABEL_SETS[ltype])
+    rng.shuffle(pool)
+    arms = pool[:3]
+    d = 2
+    npc = G.gen_np(rng, npk, len(arms), d)
+    if npc and npc["k"] == "radius":
+        npc["probs"] = None
+        npc["r"] = 3.0
+    n = 14
+    fit = {"op": "fit", "d": [rng.choice(arms) for _ in range(n)], "r": [rng.choice([0, 1, 2, 0.5]) for _ in range(n)],
+           "c": [[float(rng.randint(0, 4)) for _ in range(d)] for _ in range(n)]}
+    m = rng.choice([1025, 1025, 2049, 513, 257, 129, 65, 1024, 2048])
+    rows = [[float(rng.randint(0, 4)) for _ in range(d)] for _ in range(m)]
+    cfg = {"lp": lp, "np": npc, "arms": arms, "seed": rng.randint(0, 10 ** 6), "binz": None,
+           "n_jobs": rng.choice([1, 1, 2, 3])}
+    if cfg["n_jobs"] > 1:
+        cfg["backend"] = "threading"
+    return {"cfg": cfg, "ops": [fit, {"op": rng.choice(["pred", "pexp"]), "c": rows}]}
+
+
 @twin("outputs_over_arms")
 @T.quiet
 def outputs_over_arms(scn):
@@ -1241,6 +1306,7 @@ def gen_sim(seed, index):
             npc["kk"] = rng.choice([1, 2, 3])
         if npc and npc["k"] == "radius":
             npc["probs"] = None
+        data_metric(rng, npc, 0.45)
         bandits.append({"lp": lp, "np": npc, "arms": list(arms), "seed": rng.randint(0, 10 ** 6), "binz": None,
                         "n_jobs": rng.choice([1, 1, 2]), "backend": None})
     test_size = rng.choice([0.2, 0.3, 0.4, 0.5])
